@@ -183,6 +183,12 @@ func (s *sim) nextByz(rng *simcore.RNG, roll int) simcore.Op {
 		op["r"] = 0
 	}
 	ids := s.knownBlockIDs(rs.Height)
+	if rs.Step == cstypes.RoundStepNewHeight && rs.LastCommit == nil && rng.Bool(0.5) {
+		// the chain's first height has no previous commit: a "late precommit" for the height
+		// before it must simply be ignored
+		op["h"], op["r"], op["t"] = rs.Height-1, 0, 2
+		ids = nil
+	}
 	if rs.Step == cstypes.RoundStepNewHeight && rs.LastCommit != nil && rng.Bool(0.5) {
 		// a late precommit for the height just decided: it lands in LastCommit, from which the
 		// next proposer builds the commit of its block
